@@ -123,6 +123,18 @@ Proof.
       - pose proof (filter_length_le N (fun x => negb (x =? n)) l). cbn [length]. lia.
       - cbn [orb] in M. cbn [length]. specialize (IH M). lia. }
     lia.
+  - (* unsubscribe racing a held subscribe: completion, then the unsubscribe *)
+    destruct (take tok (resv s)) as [[n rest]|] eqn:T; [|discriminate].
+    destruct (complete_gen true g s tok ok) as [s1 o1] eqn:E1.
+    destruct (unsub_cmd s1 n) as [[s2 o2]|] eqn:E2; [|discriminate]. inversion H; subst.
+    assert (W1 : held s1 <= g_limit g).
+    { unfold complete_gen in E1. rewrite T in E1. pose proof (take_length _ _ _ _ T) as TL.
+      destruct (closed s); [|destruct ok]; inversion E1; subst; unfold held in *; cbn [chans resv mpag] in *;
+        rewrite ?app_length; cbn [length]; lia. }
+    unfold unsub_cmd in E2. destruct (closed s1); [inversion E2; subst; assumption|].
+    destruct (memN n (map snd (resv s1)) || memN n (mpag s1)); [discriminate|]. inversion E2; subst.
+    unfold held in *; cbn [chans resv mpag] in *.
+    pose proof (filter_length_le N (fun x => negb (x =? n)) (chans s1)). lia.
   - (* enqueue *)
     inversion H as [H']. unfold enqueue in H'. destruct (closed s) eqn:C; [inversion H'; subst; assumption|].
     cbv zeta in H'. cbn [q] in H'.
@@ -131,11 +143,23 @@ Proof.
     + inversion H'; subst. unfold held in *. cbn [chans resv mpag] in *. exact W.
 Qed.
 
-(* the channel limit is never exceeded, on any run *)
-Theorem limit_invariant : forall g ls t,
-  trace g init ls = Some t -> forall o s, In (o, s) t -> g_limit g = 0 \/ held s <= g_limit g.
+(* the channel limit is never exceeded, on any run, whatever server-side subscriptions the
+   connection starts with *)
+Lemma start_within : forall g names, within g (fst (start g names)).
 Proof.
-  intros g ls t H.
+  intros g names. unfold within, start.
+  destruct (N.eq_dec (g_limit g) 0) as [Z|Z]; [left; assumption|right].
+  assert (Zb : (0 <? g_limit g) = true) by (apply N.ltb_lt; lia). rewrite Zb. cbn [andb].
+  destruct (g_limit g <? N.of_nat (length names)) eqn:L; cbn [fst]; unfold held; cbn [chans resv mpag length].
+  - lia.
+  - nb. lia.
+Qed.
+
+Theorem limit_invariant : forall g names ls t,
+  trace g (fst (start g names)) ls = Some t ->
+  forall o s, In (o, s) t -> g_limit g = 0 \/ held s <= g_limit g.
+Proof.
+  intros g names ls t H.
   assert (G : forall ls s0 t, trace_gen sub_cmd complete g s0 ls = Some t -> within g s0 ->
                               forall o s, In (o, s) t -> within g s).
   { induction ls0 as [|l r IH]; intros s0 t0 Ht W o s Hin; cbn [trace_gen] in Ht.
@@ -146,7 +170,15 @@ Proof.
       assert (W1 : within g s1) by (eapply (step_within true); [exact E|exact W]).
       destruct Hin as [Hin|Hin]; [inversion Hin; subst; assumption|].
       eapply IH; eassumption. }
-  intros o s Hin. eapply G; [exact H| |exact Hin]. right. unfold held, init. cbn. lia.
+  intros o s Hin. eapply G; [exact H|apply start_within|exact Hin].
+Qed.
+
+(* more connect-time subscriptions than the limit: disconnected with 3505, none is created *)
+Theorem connect_over_limit : forall g names,
+  0 < g_limit g -> g_limit g < N.of_nat (length names) ->
+  start g names = (mkSt true [] [] [] [] 0 0, [OClose 3505]).
+Proof.
+  intros g names L1 L2. unfold start. apply N.ltb_lt in L1, L2. rewrite L1, L2. reflexivity.
 Qed.
 
 (* the code before the fixes: three overlapping map subscribes with held callbacks all pass the
